@@ -28,7 +28,7 @@ LEAN_TARGETS = ['CfVerif.Props.C16']
 PROPS_MODULES = ['CfVerif.Props.C16']
 DRIVER = 'Driver/C16.lean'
 REQUIRED_THEOREMS = ['CfVerif.C16.' + t for t in (
-    'align_applies_one_rigid_map', 'align_returns', 'align_preserves_distances', 'align_preserves_relative_orientation',
+    'align_applies_one_rigid_map', 'align_returns', 'align_raises', 'align_preserves_distances', 'align_preserves_relative_orientation',
     'residual_zero_iff_aligned', 'deflip_correct', 'align_exact_of_zero_residual', 'align_residual_bound', 'x_samples_on_positive_axis',
     'aligned_unique', 'align_recovers_true_alignment',
     'scale_uniform', 'scale_fixed_point_exact', 'scale_diagonals_exact', 'intersection_on_plane_and_ray',
